@@ -7,6 +7,19 @@ CLAIMED = {
  "C13": ("model_checking", "explicit-state BFS of the real scanner over the full byte alphabet, lock-step with a reference keyword automaton",
          "All byte strings are explored breadth-first from every directive-start context over 256 bytes + EOF until the scanner rejects or completes a keyword; every transition and every (keyword, terminator) pair is executed on the real scanner and compared with the reference keyword set; the space is finite (depth <= 12) and enumerated completely.",
          "Trusts the frozen reference keyword list (internal/ref/keywords.go) and the read-only VerifState() accessor used to tell 'inside a keyword' from 'between directives'."),
+
+ "C01": ("exploration", "bounded exhaustive input enumeration (scanner-state x byte continuations, directive-instance sequences, macro graphs, include graphs) on the real pipeline in crash-isolated worker subprocesses",
+         "Five finite input families are enumerated completely and every member is built by the real code; a recovered panic, a fatal worker death (stack overflow, out of memory), a reproduced hang or a result that is neither a catalog nor a located error is a violation.",
+         "Trusts Go's recover for panics and the driver's attribution of a dead worker to the case it had announced; inputs beyond the stated bounds and time-proportionality are not decided."),
+ "C02": ("exploration", "small-scope exhaustive enumeration of document models x layouts within a deviation bound, compared with a model-derived expected catalog",
+         "Every document model within the node budget is rendered in every layout within the deviation bound (incl. MACRO/PASTE and INCLUDE moves) and built by the real code; the parsed ToJson output must equal, with key order, the JDoc document computed from the model alone.",
+         "Trusts internal/model (expected JDoc built from the model, checked against the pinned fixtures while developing), the reference context automaton used to discard renderings whose tree is not the intended one, and the palettes as representatives; 'example' strings are not compared."),
+ "C11": ("model_checking", "explicit-state BFS over all reachable open-context chains of a reference automaton; every (state, symbol) transition replayed on the real scanner + context resolution",
+         "All reachable states of the reference context automaton are explored with every symbol of the alphabet (31 kinds x explicit/implicit x path/no-path, ')'); each transition is executed on the real code from the state's shortest witness and verdict, error class and line, open-context chain and directive tree are compared; all sequences up to length 3 are additionally run without deduplication.",
+         "Trusts the frozen copy of the allowed-context table in internal/ref/context.go and the read-only accessors VerifScanOnly/VerifContextChain/VerifTree; one well-formed instance per directive kind."),
+ "C12": ("model_checking", "explicit-state BFS of the real scanner at token level (state = VerifState) with a well-formedness oracle on every explored string, plus exhaustive model x layout exactness against the renderer's position map",
+         "Token strings are explored breadth-first and deduplicated on the real scanner's control state; every (state, token) string is scanned to EOF and its lexeme stream checked (inside file, ordered, non-overlapping, per-directive shape). For every generated document x layout the lexeme stream must equal the position map byte for byte.",
+         "Dedup key soundness: VerifState holds everything step functions read besides the input; prefixes whose state cannot be read cleanly are kept as separate states. The extent of schema/enum bodies is decided by jsight-schema-core (trailing blanks/comments may be swallowed, nothing else)."),
 }
 
 NOT_YET = {}
